@@ -740,7 +740,19 @@ impl From<(ASN1Value, Option<ExtensionMarker>)> for SubtypeElements {
 impl From<Constraint> for SubtypeElements {
     fn from(value: Constraint) -> Self {
         match value {
-            Constraint::Subtype(set) => Self::SizeConstraint(Box::new(set.set)),
+            Constraint::Subtype(mut set) => {
+                // the marker may be written behind a parenthesised element: `SIZE ((1..2), ...)`
+                if set.extensible {
+                    if let ElementOrSetOperation::Element(
+                        SubtypeElements::ValueRange { extensible, .. }
+                        | SubtypeElements::SingleValue { extensible, .. },
+                    ) = &mut set.set
+                    {
+                        *extensible = true;
+                    }
+                }
+                Self::SizeConstraint(Box::new(set.set))
+            }
             _ => unreachable!(),
         }
     }
